@@ -165,6 +165,10 @@ def has_check_type_in_type(type_: type, check_type: type) -> bool:
     """Return True if a given type is a subclass of check_type or a complex
     type that has a subclass of check_type among it's arguments."""
 
+    if is_new_type(type_):
+        # NewType is transparent, wherever it appears
+        return has_check_type_in_type(unwrap_newtype(type_), check_type)
+
     try:
         if issubclass(type_, check_type):
             return True
@@ -196,6 +200,9 @@ def _is_valid_child_field_type(
     caught in the outer function.
     """
 
+    if is_new_type(type_):
+        type_ = unwrap_newtype(type_)
+
     if not allow_sequence and is_optional(type_):
         # We do not allow optionals within sequences
         # So check this early
@@ -207,7 +214,11 @@ def _is_valid_child_field_type(
         # So easy check
 
         try:
-            if not all(issubclass(t, node_base_type) for t in args if t is not type(None)):
+            if not all(
+                issubclass(unwrap_newtype(t), node_base_type)
+                for t in args
+                if t is not type(None)
+            ):
                 return InvalidTypeReason.NON_NODE_TYPE
         except TypeError:
             return InvalidTypeReason.NON_NODE_TYPE
@@ -359,9 +370,10 @@ def get_type_info(type_: Any, allow_sequence: bool = True) -> FieldTypeInfo:
 
 def _has_forward_ref(type_: Any) -> bool:
     """Return True if a (possibly generic) type has an unresolved forward reference inside."""
-    return any(
-        isinstance(t, (str, ForwardRef)) or _has_forward_ref(t) for t in get_args(type_)
-    )
+    if isinstance(type_, (str, ForwardRef)):
+        return True
+
+    return any(_has_forward_ref(t) for t in get_args(type_))
 
 
 def get_field_types(type_: type[DataclassInstance]) -> dict[Field, Any]:
@@ -377,7 +389,7 @@ def get_field_types(type_: type[DataclassInstance]) -> dict[Field, Any]:
 
     for field in fields(type_):
         f_type = field.type
-        if isinstance(f_type, str) or _has_forward_ref(f_type):
+        if _has_forward_ref(f_type):
             if hints is None:
                 hints = get_type_hints(type_)
 
